@@ -89,7 +89,8 @@ NamedPolicies == {
 SingleRulePolicies == { {r} : r \in { x \in Rules : x.u = "alice" } }
 Policies == IF Thorough THEN NamedPolicies \cup SingleRulePolicies ELSE NamedPolicies
 
-BulkSeqs == { <<"g1", "g2", "g3">>, <<"g2", "g1", "g2">>, <<"g3">>, <<>> }
+BulkSeqs == { <<"g1", "g2", "g3">>, <<"g2", "g1", "g2">>, <<"g3">>, <<>>,
+              <<"g1", "g1", "g1", "g2">>, <<"g2", "g2", "g1", "g1", "g2">>, <<"g3", "g3">> }   \* runs of one graph: a filter that caches per graph must cache the verdict too
 
 (* ---- state ----------------------------------------------------------- *)
 VARIABLES
